@@ -234,7 +234,7 @@ func deepCopyMap(m map[string]interface{}) map[string]interface{} {
 func ProjectCluster(sim *simcluster.Sim) map[string]Obj {
 	out := map[string]Obj{}
 	for k, o := range sim.Snapshot() {
-		if simcluster.IsReleaseRecordName(k.Name) {
+		if simcluster.IsReleaseRecordName(k.Name) || k.Resource == "namespaces" {
 			continue
 		}
 		out[k.Name] = projectObject(o)
